@@ -638,14 +638,15 @@ spf_makroletter(const char *p, const char *domain, int ex, char **res, unsigned 
 		cnt = validate_domain(&validdomains);
 		switch (cnt) {
 		case 0:
+		case DNS_ERROR_TEMP:
+		case DNS_ERROR_PERM:
+			/* RfC 7208, section 7.3: if there are no validated domain names
+			 * or if a DNS error occurs, the string "unknown" is used. */
 			APPEND(7, "unknown");
 			break;
 		case -1:
+			free(*res);
 			return -1;
-		case -2:
-			return SPF_TEMPERROR;
-		case -3:
-			return SPF_DNS_HARD_ERROR;
 		default:
 			{
 			int k = spf_appendmakro(res, l, validdomains[0],
